@@ -119,7 +119,8 @@ func (a *attribute) initHash() hash.StringHash {
 		h.Put(keyKind, stringValue(string(a.kind)))
 	}
 	if a.value != nil {
-		opt := a.value.Equals(undef, nil)
+		// an Optional attribute has the implicit value undef; a constant must always state its value
+		opt := a.kind != constant && a.value.Equals(undef, nil)
 		if opt {
 			_, opt = a.typ.(*OptionalType)
 		}
